@@ -526,6 +526,132 @@ Proof.
   - intros ->. cbn in Hl. lia.
 Qed.
 
+(** a frame that was already accepted in this epoch is rejected as a duplicate and leaves
+    the control state as it was *)
+Lemma ingest_dup P (q : queue) j :
+  Ctl so psz n L P q -> (forall x, In x P -> (x < n)%nat) -> (j < n)%nat -> In j P ->
+  exists q', ingest_frame q (hframe so psz n data j) = (q', Err Duplicate) /\ Ctl so psz n L P q'.
+Proof.
+  intros C Hlt Hj Hin.
+  destruct consts as (CF & CP & CM & CB & CC).
+  set (f := hframe so psz n data j).
+  pose proof (hf_len j Hj) as Hlen. fold f in Hlen.
+  assert (Hfo : h_fo (f_hdr f) = N.of_nat j * psz) by reflexivity.
+  pose proof (hf_last j) as Hlast. fold f in Hlast.
+  assert (Hpz : psz <> 0) by lia.
+  assert (Hfit : h_fo (f_hdr f) + flen f <= MAX_PACKET_SIZE).
+  { rewrite Hfo, Hlen. destruct (Nat.eqb_spec (S j) n) as [E|E].
+    - replace j with (n - 1)%nat by lia. lia.
+    - assert (N.of_nat (S j) * psz <= N.of_nat (n - 1) * psz) by (apply N.mul_le_mono_r; lia). lia. }
+  assert (Hidx : In (idxof j) (q_mask q)).
+  { apply (c_mask _ _ _ _ _ _ C). exists j. split; auto. }
+  unfold ingest_frame. rewrite (c_idle _ _ _ _ _ _ C).
+  replace (MAX_PACKET_SIZE <? h_fo (f_hdr f) + flen f) with false by (symmetry; apply N.ltb_ge; lia).
+  destruct (Nat.eqb_spec (S j) n) as [Elast|Emid].
+  - (* repeated last frame: rejected before any state is touched *)
+    unfold ingest_classify. rewrite Hlast.
+    replace (BITMASK_ENTRY_COUNT <=? (MAX_FRAMES - 1) / BITMASK_ENTRY_BITS) with false
+      by (rewrite CF, CB, CC; reflexivity).
+    assert (Hm : mem (MAX_FRAMES - 1) (q_mask q) = true).
+    { apply mem_In. unfold idxof in Hidx.
+      replace (Nat.eqb (S j) n) with true in Hidx by (symmetry; apply Nat.eqb_eq; auto). exact Hidx. }
+    rewrite Hm. exists q. split; [reflexivity|exact C].
+  - (* repeated middle frame *)
+    assert (Hjn : (j < n - 1)%nat) by lia.
+    assert (Hidxj : idxof j = N.of_nat j).
+    { unfold idxof. replace (Nat.eqb (S j) n) with false; auto. symmetry; apply Nat.eqb_neq; auto. }
+    rewrite Hidxj in Hidx.
+    assert (Hmid : existsb (fun j => negb (Nat.eqb (S j) n)) P = true).
+    { apply existsb_exists. exists j. split; auto. apply negb_true_iff, Nat.eqb_neq; auto. }
+    pose proof (c_fws _ _ _ _ _ _ C) as Cfws. rewrite Hmid in Cfws.
+    pose proof (c_fps _ _ _ _ _ _ C) as Cfps. pose proof (c_exp _ _ _ _ _ _ C) as Cexp.
+    rewrite Hmid in Cexp. cbn [andb] in Cexp.
+    assert (Hdiv : h_fo (f_hdr f) / flen f = N.of_nat j).
+    { rewrite Hfo, Hlen. apply N.div_mul; auto. }
+    pose proof n_le_frames as Hnf.
+    rewrite (classify_mid q f Hlast).
+    2:{ rewrite Hlen, Cfws. auto. }
+    2:{ rewrite Hfo, Hlen. apply N.mod_mul; auto. }
+    2:{ lia. }
+    2:{ rewrite Hlen. assert (psz * 1 <= N.of_nat (n - 1) * psz) by nia. lia. }
+    2:{ rewrite Hdiv. lia. }
+    rewrite Hdiv, Hlen.
+    set (q1 := mkQ (q_so q) (q_next q) (q_buf q) (q_mask q) (Some psz) (q_fps q) (q_exp q)
+                   (q_lfo q) (q_idle q)).
+    assert (Hskip : ingest_expect q1 = (q1, Ok tt)).
+    { apply expect_skip. destruct (existsb (fun j0 => Nat.eqb (S j0) n) P) eqn:Hl.
+      - right; right. exists (N.of_nat n). exact Cexp.
+      - left. exact Cfps. }
+    rewrite Hskip. unfold ingest_store.
+    replace (BITMASK_ENTRY_COUNT <=? N.of_nat j / BITMASK_ENTRY_BITS) with false
+      by (symmetry; apply N.leb_gt; rewrite CB, CC; apply N.div_lt_upper_bound; lia).
+    assert (Hm : mem (N.of_nat j) (q_mask q1) = true) by (apply mem_In; exact Hidx).
+    rewrite Hm. exists q1. split; [reflexivity|].
+    destruct C as [c1 c2 c3 c4 c5 c6 c7 c8 c9].
+    split; cbn [q1 q_idle q_so q_buf q_mask q_fws q_fps q_lfo q_exp]; auto.
+    rewrite Hmid. reflexivity.
+Qed.
+
+(** The complete behaviour of one slot epoch on ANY schedule of an honest packet's frames
+    (reordering, duplication, missing frames): first occurrences are accepted, the one that
+    completes the set emits the packet, repeats are rejected as duplicates, and once the
+    packet was emitted everything is rejected until the slot is initialised again. *)
+Fixpoint spec_feed (seen : list nat) (complete : bool) (sched : list nat) : list (res B) :=
+  match sched with
+  | [] => []
+  | j :: r =>
+    if complete then Err QueueNotAccepting :: spec_feed seen true r
+    else if existsb (Nat.eqb j) seen then Err Duplicate :: spec_feed seen false r
+    else if Nat.eqb (S (length seen)) n then Ok (Some (so, data)) :: spec_feed (j :: seen) true r
+    else Ok None :: spec_feed (j :: seen) false r
+  end.
+
+Lemma feed_idle (q : queue) sched seen :
+  q_idle q = true ->
+  feed q (map (hframe so psz n data) sched) = spec_feed seen true sched.
+Proof.
+  intros Hi. induction sched as [|j r IH]; cbn [map feed spec_feed]; [reflexivity|].
+  rewrite (idle_slot_rejects q _ Hi). f_equal. exact IH.
+Qed.
+
+Lemma feed_any sched : forall seen (q : queue) log,
+  Ctl so psz n L seen q -> QInv q log -> (forall g, In g log -> HonestFrame data g) ->
+  NoDup seen -> (forall x, In x seen -> (x < n)%nat) -> (length seen < n)%nat ->
+  (forall x, In x sched -> (x < n)%nat) ->
+  feed q (map (hframe so psz n data) sched) = spec_feed seen false sched.
+Proof.
+  induction sched as [|j r IH]; intros seen q log C I Hh Hnd Hlt Hlen Hs; cbn [map feed spec_feed]; [reflexivity|].
+  assert (Hj : (j < n)%nat) by (apply Hs; left; reflexivity).
+  assert (Hr : forall x, In x r -> (x < n)%nat) by (intros x Hx; apply Hs; right; exact Hx).
+  assert (Hso : h_so (f_hdr (hframe so psz n data j)) = q_so q) by (rewrite (c_so _ _ _ _ _ _ C); reflexivity).
+  destruct (existsb (Nat.eqb j) seen) eqn:Hdup.
+  - apply existsb_exists in Hdup. destruct Hdup as (x & Hx & E). apply Nat.eqb_eq in E. subst x.
+    destruct (ingest_dup seen q j C Hlt Hj Hx) as (q' & E & C').
+    rewrite E. f_equal.
+    pose proof (ingest_spec q log _ q' _ I Hso E) as (I' & _). cbn [accepted] in I'.
+    apply (IH seen q' log); auto.
+  - assert (Hnin : ~ In j seen).
+    { intros Hx. assert (existsb (Nat.eqb j) seen = true); [|congruence].
+      apply existsb_exists. exists j. split; auto. apply Nat.eqb_refl. }
+    destruct (ingest_honest seen q j C Hnd Hlt Hj Hnin) as (q' & x & E & Hx).
+    rewrite E. pose proof (ingest_spec q log _ q' x I Hso E) as Hpost.
+    destruct (Nat.eqb (S (length seen)) n) eqn:Ecomp.
+    + destruct Hx as (p & ->).
+      pose proof (Post_emitted _ _ _ _ _ _ Hpost) as Hem.
+      assert (p = data) as ->.
+      { apply (honest_identical _ _ _ _ Hem). intros g [<-|Hg]; auto. apply hframe_honest; auto. }
+      f_equal. apply feed_idle.
+      destruct Hpost as (_ & _ & _ & _ & H5). destruct (H5 so data eq_refl) as (_ & Hi & _). exact Hi.
+    + destruct Hx as (-> & C'). f_equal.
+      destruct Hpost as (I' & _). cbn [accepted] in I'.
+      apply Nat.eqb_neq in Ecomp.
+      apply (IH (j :: seen) q' (hframe so psz n data j :: log)); auto.
+      * intros g [<-|Hg]; auto. apply hframe_honest; auto.
+      * constructor; auto.
+      * intros y [<-|Hy]; auto.
+      * cbn [length]. lia.
+Qed.
+
 (** Fragmenter::send produces exactly these frames *)
 Lemma send_is_hframes fuel k :
   (k < n)%nat -> (n - k <= fuel)%nat ->
@@ -594,6 +720,64 @@ Proof.
   rewrite Hfr in *. rewrite map_length, seq_length in *.
   apply Permutation_map_inv in Hperm. destruct Hperm as (order & -> & Hperm).
   apply (complete_delivery so psz n data Hpsz E1 Hn2 Hlo Hhi order q (Permutation_sym Hperm) Hbuf f0 Hf0).
+Qed.
+
+
+(** The same for the real fragmenter: ANY schedule (reordering, duplication, omissions) of the
+    frames [Fragmenter::send] produced for a multi-frame packet, fed into the slot initialised
+    for that packet. *)
+Lemma slot_epoch_any_schedule (mtu so : N) (data : list B) frames nxt (sched : list nat)
+      (q : queue) f0 d :
+  fragmenter_send mtu so data = Ok (frames, nxt) ->
+  (2 <= length frames)%nat ->
+  (forall j, In j sched -> (j < length frames)%nat) ->
+  length (q_buf q) = N.to_nat MAX_PACKET_SIZE -> h_so (f_hdr f0) = so ->
+  feed (queue_init q f0) (map (fun j => nth j frames d) sched)
+  = spec_feed so (length frames) data [] false sched.
+Proof.
+  intros Hs Hn2 Hsched Hbuf Hf0. unfold fragmenter_send in Hs.
+  destruct (MAX_PACKET_SIZE <? N.of_nat (length data)) eqn:E1; [discriminate|].
+  destruct (N.of_nat (length data) =? 0) eqn:E0; [discriminate|].
+  apply N.ltb_ge in E1. apply N.eqb_neq in E0.
+  inversion Hs; subst frames nxt; clear Hs.
+  set (psz := clamp_mtu mtu - HEADER_SIZE) in *.
+  set (L := N.of_nat (length data)) in *.
+  assert (Hpsz : MIN_PAYLOAD_SIZE <= psz).
+  { unfold psz, clamp_mtu. pose proof (N.le_max_r (N.min mtu MAX_MTU) MIN_MTU).
+    assert (MIN_MTU = 272 /\ HEADER_SIZE = 16 /\ MIN_PAYLOAD_SIZE = 256) as (E2 & E3 & E4) by (repeat split; reflexivity).
+    rewrite E2, E3, E4 in *. lia. }
+  destruct consts as (_ & CP & CM & _).
+  set (n := N.to_nat ((L + psz - 1) / psz)).
+  assert (Hn1 : (1 <= n)%nat).
+  { unfold n. assert (1 <= (L + psz - 1) / psz); [|lia]. apply N.div_le_lower_bound; lia. }
+  assert (Hlo : N.of_nat (n - 1) * psz < L).
+  { unfold n. pose proof (N.div_mod (L + psz - 1) psz). pose proof (N.mod_lt (L + psz - 1) psz). nia. }
+  assert (Hhi : L <= N.of_nat n * psz).
+  { unfold n. pose proof (N.div_mod (L + psz - 1) psz). pose proof (N.mod_lt (L + psz - 1) psz). nia. }
+  assert (Hfr : send_frames (length data) so psz 0 data = map (hframe so psz n data) (seq 0 n)).
+  { pose proof (send_is_hframes so psz n data Hpsz E1 Hlo Hhi (length data) 0) as H.
+    cbn [N.of_nat] in H. rewrite N.mul_0_l in H. cbn [N.to_nat skipn] in H.
+    rewrite Nat.sub_0_r in H. apply H; [lia|].
+    assert (N.of_nat (n - 1) * 256 <= N.of_nat (n - 1) * psz) by (apply N.mul_le_mono_l; lia). lia. }
+  rewrite Hfr in *. rewrite map_length, seq_length in *.
+  assert (Hmap : map (fun j => nth j (map (hframe so psz n data) (seq 0 n)) d) sched
+                 = map (hframe so psz n data) sched).
+  { apply map_ext_in. intros j Hj. specialize (Hsched j Hj).
+    rewrite (nth_indep _ d (hframe so psz n data 0)) by (rewrite map_length, seq_length; exact Hsched).
+    rewrite map_nth. f_equal. rewrite seq_nth; auto. }
+  rewrite Hmap.
+  apply (feed_any so psz n data Hpsz E1 Hn2 Hlo Hhi sched [] (queue_init q f0) []).
+  - split; cbn [queue_init q_idle q_so q_buf q_mask q_fws q_fps q_exp q_lfo existsb length andb]; auto.
+    + intros i. split; [intros []|intros (j & [] & _)].
+    + discriminate.
+  - split; cbn [queue_init q_idle q_so q_buf]; auto; [intros ? []|].
+    intros _. split; cbn [queue_init q_mask q_fws q_fps q_exp q_lfo]; try (intros; discriminate); try (intros ? []); try (intros []).
+    constructor.
+  - intros g [].
+  - constructor.
+  - intros x [].
+  - cbn [length]. lia.
+  - exact Hsched.
 Qed.
 
 End WithByte.
